@@ -71,6 +71,15 @@ def gen_deflate(tier, rng):
                 scns.append(igz.scenario(len(scns), "deflate", inp, level=level, wrap=[0, 1, 3][k % 3], lbuf=[3, 0][k % 2], mem=[0, 1, 2][k % 3], prefill=k % 3,
                                          calls=[[first, 1 << 18, 0, 0], [n, 1 << 18, [0, 1, 2][k % 3], 1]], tail_ai=n, tail_ao=1 << 18, cap=400, meta={"family": "small-then-huge", "cls": cls}))
                 k += 1
+    # (v3) zlib wrapper with a call boundary exactly where the running Adler-32 low half is 0 or 65520 (the compressor carries B|(A-1) between calls)
+    from props import c11
+    for name, d in c11.adler_edge_inputs(rng):
+        if len(d) > 3000: continue
+        pcut = len(d); d2 = list(d) + igz.corpus(rng, "text", 500)
+        for level in range(4):
+            for cutpos in (pcut, pcut + 1):
+                scns.append(igz.scenario(len(scns), "deflate", d2, level=level, wrap=[3, 4][level % 2], lbuf=3, mem=level % 3, calls=[[cutpos, 1 << 16, [1, 2, 0][level % 3], 0], [len(d2) - cutpos, 1 << 16, 0, 1]], tail_ao=1 << 16, cap=200,
+                                         meta={"family": "input-boundary-at-adler-edge", "cls": name}))
     # (vi) model-guided schedules: the harness walks the DeflateStream model's (control state, environment action) keys, always taking the
     #      least-visited (room class, hand over input, flush, end_of_stream) choice from the state the real stream is in (h_igzip.c adapt_choose)
     reps = 3 if tier == "quick" else 12
@@ -161,6 +170,15 @@ def gen_inflate(tier, rng):
     for jj in range(0, 300, 3 if tier == "quick" else 1):
         scns.append(igz.scenario(len(scns), "inflate", list(lst), wrap=0, calls=[[n, 32768 + jj, 0, 0], [0, 1 << 17, 0, 0], [0, 1 << 17, 0, 0]], tail_ai=n, tail_ao=1 << 17, cap=4000, mem=jj % 3,
                                  meta={"family": "long-match-across-staging-end", "salt": jj % 6}))
+    # zlib: the caller's buffer boundary falls exactly where the running Adler-32 low half is 0 (or 65520): the decoder carries B|(A-1) between calls
+    from props import c11
+    for name, d in c11.adler_edge_inputs(rng):
+        if len(d) > 3000: continue
+        pcut = len(d); d2 = bytes(d) + bytes(igz.corpus(rng, "text", 500))
+        for lvl in (1, 6):
+            zs = zlib.compress(d2, lvl)
+            for first in (pcut, pcut - 1, pcut + 1):
+                scns.append(igz.scenario(len(scns), "inflate", list(zs), wrap=3, calls=[[len(zs), first, 0, 0], [0, 1 << 16, 0, 0]], tail_ai=len(zs), tail_ao=1 << 16, cap=400, mem=first % 3, meta={"family": "output-boundary-at-adler-edge", "salt": first % 6}))
     # a stored block that resumes with one or two of its bytes already delivered while more of them wait in the decoder's bit buffer: the stored
     # block starts 0-4 bytes before the end of the 64 KiB staging buffer (all input, one large output buffer), or the caller's first output
     # buffer (larger than the staging buffer, so the decoder writes into it directly) ends 0-4 bytes into the stored block
